@@ -22,16 +22,19 @@ type pend struct {
 
 // Thread is a model thread (a real goroutine that runs only while it holds the baton).
 type Thread struct {
-	id      int
-	Name    string
-	User    bool // created by the scenario (Main / GoNamed): must not be parked forever
-	wake    chan struct{}
-	exited  chan struct{}
-	op      *pend
-	done    bool
-	spawns  int
-	vc      VC
-	started bool
+	id       int
+	Name     string
+	User     bool // created by the scenario (Main / GoNamed): must not be parked forever
+	wake     chan struct{}
+	exited   chan struct{}
+	op       *pend
+	done     bool
+	spawns   int
+	vc       VC
+	started  bool
+	nameHash uint64
+	lastH    uint64
+	nev      int
 }
 
 // Ev is a harness-visible event (call/return/observation marker) in the global log.
@@ -74,6 +77,8 @@ type cp struct {
 	chosen int32
 	cost   int32 // cost of the chosen alternative
 	costs  []int32
+	key    uint64 // HB state key at this choice point
+	rem    int32  // budget remaining before the choice
 }
 
 // Exec is one execution.
@@ -99,9 +104,16 @@ type Exec struct {
 	divergence string
 	nextObj    int
 	budgetLeft int
-	atomics    map[uintptr]*VC
+	atomics    map[uintptr]*atomState
 	tracing    bool
 	tlog       []string
+	hb         uint64
+	logObj     hbObj
+	bound      int32
+	used       int32
+	cache      map[uint64]int8
+	pruned     bool
+	nowSeen    map[int64]bool
 }
 
 // X is the execution in progress (nil outside executions).
@@ -117,6 +129,7 @@ type Scenario struct {
 	Delay     bool                      // delay bounding instead of pre-emption bounding
 	TimerDev  bool                      // early timer firing allowed as a deviation (cost 1)
 	MaxSteps  int                       // default 4000
+	NoCache   bool                      // disable the happens-before state cache (self-check)
 	IdleGap   int64                     // ns; quiescent timers further away than this end the run (default 30 min)
 }
 
@@ -135,6 +148,10 @@ func (x *Exec) tracef(format string, a ...interface{}) {
 func (x *Exec) newThread(name string, user bool, fn func()) *Thread {
 	t := &Thread{id: len(x.threads), Name: name, User: user, wake: make(chan struct{}, 1), exited: make(chan struct{})}
 	t.op = &pend{desc: "start"}
+	t.nameHash = strHash(name)
+	if x.cur != nil {
+		t.lastH = mix(x.hbEvent(nil, kSpawn, t.nameHash), 7)
+	}
 	x.threads = append(x.threads, t)
 	i := sort.Search(len(x.order), func(i int) bool { return x.order[i].Name > name })
 	x.order = append(x.order, nil)
@@ -175,6 +192,7 @@ func (x *Exec) threadEnd(t *Thread) {
 		return
 	}
 	t.done = true
+	x.hbEvent(nil, kEnd, 0)
 	x.tracef("thread end")
 	next := x.pick()
 	if next == nil {
@@ -327,7 +345,7 @@ func (x *Exec) pick() *Thread {
 			for k := range alts {
 				costs[k] = alts[k].cost
 			}
-			i = x.choose(costs)
+			i = x.choose(costs, 1)
 			if i < 0 {
 				return nil
 			}
@@ -341,17 +359,25 @@ func (x *Exec) pick() *Thread {
 }
 
 // choose records a choice point; replays the prefix, then takes alternative 0.
-func (x *Exec) choose(costs []int32) int {
+func (x *Exec) choose(costs []int32, marker uint64) int {
 	idx := len(x.trace)
 	c := int32(0)
+	key := x.stateKey(marker)
+	rem := x.bound - x.used
 	if idx < len(x.prefix) {
 		c = x.prefix[idx]
 		if int(c) >= len(costs) {
 			x.divergence = fmt.Sprintf("choice %d: prefix wants alternative %d of %d", idx, c, len(costs))
 			return -1
 		}
+	} else if x.cache != nil {
+		if v, ok := x.cache[key]; ok && int32(v) >= rem {
+			x.pruned = true
+			return -1
+		}
 	}
-	x.trace = append(x.trace, cp{n: int32(len(costs)), chosen: c, cost: costs[c], costs: costs})
+	x.trace = append(x.trace, cp{n: int32(len(costs)), chosen: c, cost: costs[c], costs: costs, key: key, rem: rem})
+	x.used += costs[c]
 	return int(c)
 }
 
@@ -360,7 +386,7 @@ func (x *Exec) chooseFree(n int) int {
 	if n <= 1 {
 		return 0
 	}
-	i := x.choose(make([]int32, n))
+	i := x.choose(make([]int32, n), 2)
 	if i < 0 {
 		// divergence: stop this thread here
 		x.signalFinish()
@@ -422,6 +448,7 @@ func Yield() {
 		return
 	}
 	x.point(&pend{desc: "yield"})
+	x.hbEvent(nil, kYield, 0)
 }
 
 // Event appends a marker to the global log (not a scheduling point).
@@ -435,6 +462,9 @@ func Event(kind string, args ...interface{}) {
 		name = x.cur.Name
 	}
 	x.events = append(x.events, Ev{Thread: name, Kind: kind, Args: args, Step: x.steps})
+	if x.cur != nil && !x.frozen {
+		x.hbEvent(&x.logObj, kLog, strHash(kind))
+	}
 	if x.tracing {
 		x.tracef("EVENT %s %v", kind, args)
 	}
@@ -455,8 +485,8 @@ func Running() bool { return active() != nil }
 var realWG gosync.WaitGroup
 
 // runOne executes the scenario once under the given choice prefix.
-func runOne(sc *Scenario, prefix []int32, tracing bool) (*Exec, *Result, []Failure) {
-	x := &Exec{sc: sc, prefix: prefix, finished: make(chan struct{}, 1), chans: map[unsafe.Pointer]*chanState{}, shadow: map[unsafe.Pointer]*shadowVar{}, tracing: tracing}
+func runOne(sc *Scenario, prefix []int32, tracing bool, bound int, cache map[uint64]int8) (*Exec, *Result, []Failure) {
+	x := &Exec{sc: sc, prefix: prefix, bound: int32(bound), cache: cache, finished: make(chan struct{}, 1), chans: map[unsafe.Pointer]*chanState{}, shadow: map[unsafe.Pointer]*shadowVar{}, tracing: tracing}
 	X = x
 	main := x.newThread("main", true, sc.Body)
 	x.cur = main
@@ -473,7 +503,7 @@ func runOne(sc *Scenario, prefix []int32, tracing bool) (*Exec, *Result, []Failu
 		}
 	}
 	var fails []Failure
-	if x.divergence == "" && sc.Check != nil {
+	if x.divergence == "" && !x.pruned && sc.Check != nil {
 		x.frozen = true
 		fails = sc.Check(res)
 		x.frozen = false
